@@ -42,7 +42,9 @@ func c01variants(tier string) []c01variant {
 		{name: "P:prune-everything+restart", pruning: [2]int64{0, 0}, restart: "every"},
 		{name: "P:keep-recent-1-every-2", pruning: [2]int64{1, 2}, mountPerm: 5},
 		// an operator may change node-local settings across a restart: lazy loading, pruning window
-		{name: "R:reopen-lazy+changing-pruning", pruning: [2]int64{1, 3}, restart: "every", reopen: []c01reopen{{[2]int64{1, 3}, true}, {[2]int64{3, 2}, false}, {[2]int64{0, 0}, true}, {[2]int64{2, 0}, false}}},
+		{name: "R:reopen-lazy", pruning: [2]int64{1, 3}, restart: "every", reopen: []c01reopen{{[2]int64{1, 3}, true}}},
+		{name: "R:reopen-with-larger-window", pruning: [2]int64{0, 0}, restart: "middle", reopen: []c01reopen{{[2]int64{1, 0}, false}}},
+		{name: "R:reopen-lazy+changing-pruning", pruning: [2]int64{1, 3}, restart: "every", reopen: []c01reopen{{[2]int64{0, 0}, false}, {[2]int64{2, 0}, true}, {[2]int64{0, 2}, true}, {[2]int64{1, 3}, false}}},
 	}
 	if tier == "thorough" {
 		vs = append(vs, c01variant{name: "P:syncable", pruning: [2]int64{100, 10000}},
@@ -308,7 +310,7 @@ func init() {
 			}
 			return RunC01History(sc.Cfg, sc.Prelude, blocks, tier)
 		},
-		Rule:   "all histories of D blocks (+1) with at most K deviating blocks over the union alphabet (staking, slashing, evidence, awards/burns, governance, invalid and panicking transactions, multi-event blocks) for 3 genesis states; each history is executed on a baseline instance and on 7-9 variant instances (different store mount order, restart after every commit, restart once, interleaved CheckTx/Simulate/Query traffic, PruneEverything with and without restarts, keepRecent=1/keepEvery=2, syncable) and every InitChain/BeginBlock/DeliverTx/EndBlock/Commit/Info response (Log excluded) is compared byte for byte; evaluations = histories, each validated on all variants",
+		Rule:   "all histories of D blocks (+1) with at most K deviating blocks over the union alphabet (staking, slashing, evidence, awards/burns, governance, invalid and panicking transactions, multi-event blocks) for 3 genesis states; each history is executed on a baseline instance and on 10-12 variant instances (different store mount order, restart after every commit, restart once, reopening with lazy loading / a larger pruning window / changing pruning settings, interleaved CheckTx/Simulate/Query traffic, PruneEverything with and without restarts, keepRecent=1/keepEvery=2, syncable) and every InitChain/BeginBlock/DeliverTx/EndBlock/Commit/Info response (Log excluded) is compared byte for byte; evaluations = histories, each validated on all variants",
 		QuickS: 280, ThoroughS: 1700,
 		Assume: []string{"Go map iteration order inside the application differs between instances by Go's runtime randomisation but is not enumerated", "Log strings are excluded (recovered panics embed stack traces)"},
 	})
